@@ -206,18 +206,7 @@ func (c *ctx) fileWrites() {
 					c.s.Check(ok && se.Sel.Name == "OutputPath", "G4", fc.funcName(v)+"|outputPath <- opts.OutputPath", c.pos(v), "", "generator.outputPath is not taken from generatorOpts.OutputPath")
 				case "OutputPath":
 					nSet++
-					fd := fc.funcDecl(v)
-					good := false
-					if fd != nil && fd.Name.Name == "Process" {
-						o := astx.IdentObj(info, v.Value)
-						for _, f := range fd.Type.Params.List {
-							for _, nm := range f.Names {
-								if info.Defs[nm] == o && o != nil {
-									good = true
-								}
-							}
-						}
-					}
+					good := c.isProcessOutputPath(fc, v.Value)
 					c.s.Check(good, "G4", fc.funcName(v)+"|OutputPath <- Process's outputPath parameter", c.pos(v), "", "generatorOpts.OutputPath is not Process's outputPath parameter")
 				}
 			}
@@ -259,37 +248,13 @@ func (c *ctx) fileWrites() {
 		why := "the output path handed to Process is not the -file IN=OUT value or genFilename(input path)"
 		tables := map[types.Object]bool{} // the -file tables the output path is looked up in
 		if proc != nil {
-			if o := astx.IdentObj(info, proc.Args[2]); o != nil {
-				good = true
-				astx.Writes(fd.Body, func(l ast.Expr, at ast.Node) {
-					if astx.IdentObj(info, l) != o {
-						return
-					}
-					as, ok := at.(*ast.AssignStmt)
-					if !ok || len(as.Rhs) != 1 {
-						good = false
-						return
-					}
-					switch r := as.Rhs[0].(type) {
-					case *ast.IndexExpr: // outputs[name]
-						if !isMapType(info.TypeOf(r.X)) {
-							good = false
-						} else if mo := astx.IdentObj(info, r.X); mo != nil {
-							tables[mo] = true
-						}
-					case *ast.CallExpr:
-						if fn := astx.Callee(info, r); fn == nil || fn.Name() != "genFilename" {
-							good = false
-						} else if len(r.Args) != 1 || !c.isProcessedPath(fc, fd, proc, r.Args[0]) {
-							// the default name must be derived from the path of the very file handed to Process
-							good = false
-							why = "the default output name is not computed from the path of the file being processed"
-						}
-					default:
-						good = false
-					}
-				})
+			fl := &mainFlow{c: c, fc: fc, info: info, proc: proc, procFd: fd, tables: tables, seen: map[ast.Expr]bool{}}
+			good = fl.pathOrigin(proc.Args[2], nil, 0)
+			if fl.why != "" {
+				why = fl.why
 			}
+			// the tables reached, and every variable / parameter / helper result they travel through
+			fl.closeTables()
 		}
 		// the table holds nothing but what the user wrote after `=`: every value stored in it is the Output field of a -file pair
 		for _, f2 := range c.files {
@@ -429,25 +394,28 @@ func (c *ctx) compileGate() {
 	}
 	info := fc.pkg.TypesInfo
 	n := 0
-	ast.Inspect(fd.Body, func(nn ast.Node) bool {
-		call, ok := nn.(*ast.CallExpr)
-		if !ok {
-			return true
-		}
+	for _, ic := range astx.CallsInlined(info, fc.pkg.Syntax, fd, 2) {
+		call := ic.Call
 		fn := astx.Callee(info, call)
 		if fn == nil || fn.Name() != "GenerateFile" {
-			return true
+			continue
 		}
 		n++
+		// the call itself, or one of the calls entered to reach it, is dominated by CompileFile() == nil
 		gated := false
-		for _, cd := range fc.par.Known(call, fd) {
-			if cd.Pos && c.errFrom(fc, cd, ".CompileFile") {
-				gated = true
+		for _, site := range append(append([]*ast.CallExpr(nil), ic.Chain...), call) {
+			sfc := c.fileOf(site)
+			if sfc == nil {
+				continue
+			}
+			for _, cd := range sfc.par.Known(site, sfc.funcDecl(site)) {
+				if cd.Pos && c.errFrom(sfc, cd, ".CompileFile") {
+					gated = true
+				}
 			}
 		}
 		c.s.Check(gated, "G5", fmt.Sprintf("Processor.Process|%s after CompileFile() == nil", fn.FullName()), c.pos(call), "", "code is generated although compilation reported errors")
-		return true
-	})
+	}
 	if n == 0 {
 		c.s.Unk("G5", "Processor.Process|GenerateFile", c.pos(fd), "no GenerateFile call")
 	}
@@ -679,6 +647,313 @@ func (c *ctx) isProcessedPath(fc *fileCtx, fd *ast.FuncDecl, proc *ast.CallExpr,
 		}
 		s2, ok := astx.Unparen(ix.X).(*ast.SelectorExpr)
 		return ok && astx.Same(info, s2.X, se.X)
+	}
+	return false
+}
+
+// mainFlow traces where the output path handed to Process comes from, through locals, helper parameters
+// and helper results of package cmd/cff.
+type mainFlow struct {
+	c      *ctx
+	fc     *fileCtx
+	info   *types.Info
+	proc   *ast.CallExpr
+	procFd *ast.FuncDecl
+	tables map[types.Object]bool
+	seen   map[ast.Expr]bool
+	why    string
+}
+
+type mainBind struct {
+	params map[types.Object]ast.Expr
+	outer  *mainBind
+}
+
+func (b *mainBind) lookup(o types.Object) (ast.Expr, *mainBind, bool) {
+	for x := b; x != nil; x = x.outer {
+		if e, ok := x.params[o]; ok {
+			return e, x.outer, true
+		}
+	}
+	return nil, nil, false
+}
+
+func (f *mainFlow) declOf(fn *types.Func) (*fileCtx, *ast.FuncDecl) {
+	for _, f2 := range f.c.files {
+		if f2.pkg != f.fc.pkg {
+			continue
+		}
+		if d := astx.DeclOfFunc(f.info, []*ast.File{f2.file}, fn); d != nil && d.Body != nil {
+			return f2, d
+		}
+	}
+	return nil, nil
+}
+
+// pathOrigin: every value e can take is a lookup in a -file table, genFilename(path of the processed file),
+// or the empty string (the "not selected" result of a helper, never used).
+func (f *mainFlow) pathOrigin(e ast.Expr, b *mainBind, depth int) bool {
+	e = astx.Unparen(e)
+	if depth > 12 {
+		return false
+	}
+	if tv, ok := f.info.Types[e]; ok && tv.Value != nil && tv.Value.ExactString() == `""` {
+		return true
+	}
+	switch x := e.(type) {
+	case *ast.IndexExpr:
+		if !isMapType(f.info.TypeOf(x.X)) {
+			return false
+		}
+		f.noteTable(x.X, b)
+		return true
+	case *ast.CallExpr:
+		fn := astx.Callee(f.info, x)
+		if fn != nil && fn.Name() == "genFilename" {
+			if len(x.Args) == 1 && f.isProcessed(x.Args[0], b, 0) {
+				return true
+			}
+			f.why = "the default output name is not computed from the path of the file being processed"
+			return false
+		}
+		return f.resultOrigin(x, 0, b, depth)
+	case *ast.Ident:
+		o := astx.ObjOf(f.info, x)
+		if o == nil {
+			return false
+		}
+		if arg, outer, ok := b.lookup(o); ok {
+			return f.pathOrigin(arg, outer, depth+1)
+		}
+		fc2 := f.c.fileOf(x)
+		if fc2 == nil {
+			return false
+		}
+		efd := fc2.funcDecl(x)
+		if efd == nil {
+			return false
+		}
+		n, all := 0, true
+		// named results start as the zero value (empty string): fine
+		astx.Writes(efd.Body, func(l ast.Expr, at ast.Node) {
+			if astx.IdentObj(f.info, l) != o {
+				return
+			}
+			n++
+			as, ok := at.(*ast.AssignStmt)
+			if !ok {
+				all = false
+				return
+			}
+			if len(as.Rhs) == len(as.Lhs) {
+				for i := range as.Lhs {
+					if as.Lhs[i] == l && !f.pathOrigin(as.Rhs[i], b, depth+1) {
+						all = false
+					}
+				}
+				return
+			}
+			// v, ok := m[k]   /   v, ok := helper(...)
+			if len(as.Rhs) == 1 {
+				for i := range as.Lhs {
+					if as.Lhs[i] != l {
+						continue
+					}
+					switch r := astx.Unparen(as.Rhs[0]).(type) {
+					case *ast.IndexExpr:
+						if i != 0 || !f.pathOrigin(r, b, depth+1) {
+							all = false
+						}
+					case *ast.CallExpr:
+						if !f.resultOrigin(r, i, b, depth+1) {
+							all = false
+						}
+					default:
+						all = false
+					}
+				}
+				return
+			}
+			all = false
+		})
+		return n > 0 && all
+	}
+	return false
+}
+
+// resultOrigin: result k of a call of a package-local helper.
+func (f *mainFlow) resultOrigin(call *ast.CallExpr, k int, b *mainBind, depth int) bool {
+	fn := astx.Callee(f.info, call)
+	if fn == nil {
+		return false
+	}
+	_, d := f.declOf(fn)
+	if d == nil {
+		return false
+	}
+	nb := &mainBind{params: map[types.Object]ast.Expr{}, outer: b}
+	i := 0
+	for _, fl := range d.Type.Params.List {
+		for _, nm := range fl.Names {
+			if i < len(call.Args) {
+				nb.params[f.info.Defs[nm]] = call.Args[i]
+			}
+			i++
+		}
+	}
+	// named results
+	var named []*ast.Ident
+	if d.Type.Results != nil {
+		for _, fl := range d.Type.Results.List {
+			named = append(named, fl.Names...)
+		}
+	}
+	ok, nret := true, 0
+	ast.Inspect(d.Body, func(n ast.Node) bool {
+		if _, isLit := n.(*ast.FuncLit); isLit {
+			return false
+		}
+		ret, isRet := n.(*ast.ReturnStmt)
+		if !isRet {
+			return true
+		}
+		nret++
+		switch {
+		case len(ret.Results) > k:
+			if !f.pathOrigin(ret.Results[k], nb, depth+1) {
+				ok = false
+			}
+		case len(ret.Results) == 0 && k < len(named):
+			if !f.pathOrigin(named[k], nb, depth+1) {
+				ok = false
+			}
+		default:
+			ok = false
+		}
+		return true
+	})
+	return ok && nret > 0
+}
+
+// isProcessed: e is the path of the file handed to Process (the range value over X.CompiledGoFiles whose key
+// selects the syntax tree), possibly through helper parameters.
+func (f *mainFlow) isProcessed(e ast.Expr, b *mainBind, depth int) bool {
+	if depth > 6 {
+		return false
+	}
+	if id, ok := astx.Unparen(e).(*ast.Ident); ok {
+		if arg, outer, ok := b.lookup(astx.ObjOf(f.info, id)); ok {
+			return f.isProcessed(arg, outer, depth+1)
+		}
+	}
+	return f.c.isProcessedPath(f.fc, f.procFd, f.proc, e)
+}
+
+func (f *mainFlow) noteTable(m ast.Expr, b *mainBind) {
+	for i := 0; i < 8; i++ {
+		id, ok := astx.Unparen(m).(*ast.Ident)
+		if !ok {
+			return
+		}
+		o := astx.ObjOf(f.info, id)
+		if o == nil {
+			return
+		}
+		f.tables[o] = true
+		arg, outer, ok := b.lookup(o)
+		if !ok {
+			return
+		}
+		m, b = arg, outer
+	}
+}
+
+// closeTables adds the variables a table value is copied from: `t := helper()` adds what the helper returns,
+// `t := other` adds other.
+func (f *mainFlow) closeTables() {
+	for changed := true; changed; {
+		changed = false
+		for _, f2 := range f.c.files {
+			if f2.pkg != f.fc.pkg {
+				continue
+			}
+			astx.Writes(f2.file, func(l ast.Expr, at ast.Node) {
+				if !f.tables[astx.IdentObj(f.info, l)] {
+					return
+				}
+				as, ok := at.(*ast.AssignStmt)
+				if !ok {
+					return
+				}
+				add := func(e ast.Expr) {
+					if o := astx.IdentObj(f.info, e); o != nil && !f.tables[o] && isMapType(o.Type()) {
+						f.tables[o] = true
+						changed = true
+					}
+				}
+				idx := -1
+				for i := range as.Lhs {
+					if as.Lhs[i] == l {
+						idx = i
+					}
+				}
+				var rhs ast.Expr
+				if len(as.Rhs) == len(as.Lhs) {
+					rhs = as.Rhs[idx]
+				} else if len(as.Rhs) == 1 {
+					rhs = as.Rhs[0]
+				}
+				if rhs == nil {
+					return
+				}
+				if call, ok := astx.Unparen(rhs).(*ast.CallExpr); ok {
+					if fn := astx.Callee(f.info, call); fn != nil {
+						if _, d := f.declOf(fn); d != nil {
+							ast.Inspect(d.Body, func(n ast.Node) bool {
+								if ret, ok := n.(*ast.ReturnStmt); ok && len(ret.Results) > idx && idx >= 0 {
+									add(ret.Results[idx])
+								}
+								return true
+							})
+						}
+					}
+					return
+				}
+				add(rhs)
+			})
+		}
+	}
+}
+
+// isProcessOutputPath: e is Processor.Process's outputPath parameter, possibly handed on through the
+// parameters of package-local helpers that Process calls.
+func (c *ctx) isProcessOutputPath(fc *fileCtx, e ast.Expr) bool {
+	pfc, pfd := c.findFunc(c.inter.PkgPath, "Processor", "Process")
+	if pfd == nil {
+		return false
+	}
+	info := pfc.pkg.TypesInfo
+	isParam := func(o types.Object) bool {
+		if o == nil {
+			return false
+		}
+		for _, f := range pfd.Type.Params.List {
+			for _, nm := range f.Names {
+				if info.Defs[nm] == o && nm.Name == "outputPath" {
+					return true
+				}
+			}
+		}
+		return false
+	}
+	o := astx.IdentObj(info, e)
+	if isParam(o) {
+		return true
+	}
+	for _, ic := range astx.CallsInlined(info, pfc.pkg.Syntax, pfd, 3) {
+		if arg, ok := ic.Bindings()[o]; ok && isParam(astx.IdentObj(info, arg)) {
+			return true
+		}
 	}
 	return false
 }
